@@ -484,6 +484,13 @@ PATTERNS = {
 }
 
 
+def use_all(rng, ops, labels):
+    """append a T gate on every label the circuit does not use (pattern matching mishandles tapes whose wires are not
+    exactly 0..n-1: known finding pinned by the corpus)"""
+    used = set(w for o in ops for w in o.wires)
+    return ops + [qp.T(w) for w in labels if w not in used]
+
+
 def case_pattern(rng):
     labels = lab(rng, rng.choice([2, 3, 3, 4]), allow_str=False)
     names = rng.sample(sorted(PATTERNS), rng.randint(1, 2))
@@ -496,7 +503,7 @@ def case_pattern(rng):
     ws = rng.sample(labels, k)
     frag = [o.map_wires(dict(zip(range(k), ws))) for o in pat][: rng.randint(2, len(pat))]
     pos = rng.randint(0, len(ops))
-    ops = ops[:pos] + frag + ops[pos:]
+    ops = use_all(rng, ops[:pos] + frag + ops[pos:], labels)
     return labels, ops, {"patterns": names}, lambda t: T.pattern_matching_optimization(t, pattern_tapes=[QuantumScript(PATTERNS[nm]()) for nm in names])
 
 
@@ -509,7 +516,7 @@ def case_relphase(rng):
     p1 = ["Hadamard", "PauliX", "T", "S", "PauliZ"]
     pre = rand_circuit(rng, labels, length=rng.randint(0, 3), pair_p=0.1, pool1=p1, pool2=["CNOT", "CZ"], pool3=[])
     post = rand_circuit(rng, labels, length=rng.randint(0, 3), pair_p=0.1, pool1=p1, pool2=["CNOT", "CZ"], pool3=[])
-    return labels, pre + frag + post, {}, lambda t: T.match_relative_phase_toffoli(t)
+    return labels, use_all(rng, pre + frag + post, labels), {}, lambda t: T.match_relative_phase_toffoli(t)
 
 
 def case_ctrl_ix(rng):
@@ -522,7 +529,7 @@ def case_ctrl_ix(rng):
     p1 = ["Hadamard", "PauliX", "T", "S", "PauliZ"]
     pre = rand_circuit(rng, labels, length=rng.randint(0, 3), pair_p=0.1, pool1=p1, pool2=["CNOT", "CZ"], pool3=[])
     post = rand_circuit(rng, labels, length=rng.randint(0, 3), pair_p=0.1, pool1=p1, pool2=["CNOT", "CZ"], pool3=[])
-    return labels, pre + frag + post, {"num_controls": nc}, lambda t: T.match_controlled_iX_gate(t, num_controls=nc)
+    return labels, use_all(rng, pre + frag + post, labels), {"num_controls": nc}, lambda t: T.match_controlled_iX_gate(t, num_controls=nc)
 
 
 def case_rowcol(rng):
@@ -649,6 +656,10 @@ CORPUS_DIFF = [
     ("zx.optimize_t_count", [0, 1], lambda: [qp.Hadamard(1), qp.T(0)], {"corpus": "zx-wire-order"}, lambda t: qp.transforms.zx.optimize_t_count(t)),
     ("zx.reduce_non_clifford", [0, 1], lambda: [qp.Hadamard(1), qp.T(0)], {"corpus": "zx-wire-order"}, lambda t: qp.transforms.zx.reduce_non_clifford(t)),
     ("zx.todd", [0, 1], lambda: [qp.Hadamard(1), qp.T(0)], {"corpus": "zx-wire-order"}, lambda t: qp.transforms.zx.todd(t)),
+    ("pattern_matching_optimization", [0, 1, 2, 3], lambda: [qp.PauliX(0), qp.CNOT([0, 3]), qp.PauliX(0), qp.T(2)], {"patterns": ["xcx"], "corpus": "pattern-nonconsecutive-wires"},
+     lambda t: T.pattern_matching_optimization(t, pattern_tapes=[QuantumScript(PATTERNS["xcx"]())])),
+    ("pattern_matching_optimization", [0, 1, 2], lambda: [qp.PauliX(2), qp.CNOT([2, 0]), qp.PauliX(2), qp.T(2)], {"patterns": ["xcx"], "corpus": "pattern-nonconsecutive-wires-raises"},
+     lambda t: T.pattern_matching_optimization(t, pattern_tapes=[QuantumScript(PATTERNS["xcx"]())])),
     ("single_qubit_fusion", [0], lambda: [qp.SX(0), qp.Barrier(wires=[0])], {"atol": 1e-8, "exclude": None, "corpus": "fusion-single-wire-barrier"}, lambda t: T.single_qubit_fusion(t)),
     ("commute_controlled", [0, 1, 2], lambda: [qp.PauliX(1), qp.CNOT([0, 1]), qp.PauliZ(1), qp.CNOT([1, 2]), qp.S(0), qp.CZ([0, 2]), qp.RX(math.pi / 2, 2), qp.Toffoli([0, 1, 2])],
      {"direction": "right", "corpus": "x-z-through-cnot"}, lambda t: T.commute_controlled(t)),
